@@ -141,6 +141,14 @@ def un_ut(tok: str) -> str:
     return "" if h == "-" else bytes.fromhex(h).decode()
 
 
+def finding_open(fid: str) -> bool:
+    """is this finding listed as OPEN in the committed known_findings.json (only then may a check set it aside)"""
+    try:
+        return any(e.get("id") == fid for e in json.load(open(os.path.join(VERIF, "known_findings.json"))).get("open", []))
+    except OSError:
+        return False
+
+
 def exc_name(e: BaseException) -> str:
     """Python exception -> the model's small enum (class family)."""
     import struct
